@@ -345,6 +345,20 @@ func genValue(rt *rapid.T) []byte {
 		// big string: larger than the read quantum / the initial buffer / its double
 		n := rapid.SampledFrom([]int{4000, 4096, 5000, 32700, 32768, 33000, 65536, 70000}).Draw(rt, "biglen") + rapid.IntRange(-3, 3).Draw(rt, "bigd")
 		return []byte(`"` + strings.Repeat("s", n) + `"`)
+	case 11:
+		if rapid.IntRange(0, 199).Draw(rt, "deep") == 100 {
+			// nesting at and just below the limit both libraries enforce (10000): ~20-70 KB values
+			d := rapid.SampledFrom([]int{9999, 10000, 10000}).Draw(rt, "deepd")
+			switch rapid.IntRange(0, 2).Draw(rt, "deepshape") {
+			case 0:
+				return []byte(strings.Repeat("[", d) + strings.Repeat("]", d))
+			case 1:
+				return []byte(strings.Repeat(`{"a":`, d-1) + `{}` + strings.Repeat("}", d-1))
+			default:
+				return []byte(strings.Repeat(`[{"k":`, d/2) + `1` + strings.Repeat("}]", d/2))
+			}
+		}
+		return bytes.TrimSpace(jgen.GenDocument(rt, rapid.IntRange(0, 3).Draw(rt, "depth")))
 	case 10:
 		n := rapid.IntRange(100, 9000).Draw(rt, "arrn")
 		var sb strings.Builder
